@@ -90,6 +90,16 @@ func drawMessages(r *Run, n int, maxLen int, extra []int) []sentMsg {
 // the caller's buffers are unchanged.
 func writeMsg(r *Run, c *websocket.Conn, ctx context.Context, m sentMsg, who string) error {
 	snap := append([]byte(nil), m.Data...)
+	ib := &inflightBuf{who: who, data: m.Data, snap: snap}
+	r.inflight = append(r.inflight, ib)
+	defer func() {
+		for i, b := range r.inflight {
+			if b == ib {
+				r.inflight = append(r.inflight[:i], r.inflight[i+1:]...)
+				break
+			}
+		}
+	}()
 	var err error
 	if m.API == 0 {
 		err = c.Write(ctx, m.Typ, m.Data)
@@ -295,6 +305,16 @@ func runC01(r *Run) {
 			}
 		})
 	}
+	// an observer that looks at the writers' buffers while their calls are in progress
+	r.S.Go("watch", func() {
+		for k := 0; k < 60; k++ {
+			r.S.ParkE("a.watch", func() bool { return len(r.inflight) > 0 || dirs[0].got == len(dirs[0].msgs) && dirs[1].got == len(dirs[1].msgs) }, nil)
+			if len(r.inflight) == 0 {
+				return
+			}
+			r.checkInflight()
+		}
+	})
 	r.S.Loop()
 	if r.S.Aborted != "" {
 		if r.S.Aborted == "sim-time" {
